@@ -243,8 +243,18 @@ func (c *Ctx) referenceSpec() TaintSpec {
 		},
 		Sanitizer: func(f *types.Func) bool { return san[f] },
 		CleanAt: func(v ssa.Value, use ssa.Instruction) bool {
-			tags, known := c.tagsAt(v, use.Block())
-			return known && !tags[refTag]
+			if tags, known := c.tagsAt(v, use.Block()); known && !tags[refTag] {
+				return true
+			}
+			// on the false edge of `_, ok := v.(object.Reference)`
+			for _, cc := range controlling(use.Block()) {
+				if ex, ok := cc.Cond.(*ssa.Extract); ok && ex.Index == 1 && cc.Edge == 1 {
+					if ta, ok := ex.Tuple.(*ssa.TypeAssert); ok && ta.CommaOk && ta.X == v && types.Identical(ta.AssertedType, refT) {
+						return true
+					}
+				}
+			}
+			return false
 		},
 		StorageStruct: func(n *types.Named) bool { return kvT != nil && n.Obj() == kvT },
 		Carrier: func(t types.Type) bool {
